@@ -55,7 +55,7 @@ BeginParse ==
   /\ cursor' = 1 /\ st' = Fresh /\ onlyPos' = FALSE /\ byDD' = FALSE /\ positionals' = <<>>
   /\ acct' = <<>> /\ chk' = 1
   /\ IF LettersUnique THEN phase' = "scan" /\ reason' = "" /\ hist' = hist
-     ELSE phase' = "error" /\ reason' = "Inconsistent" /\ hist' = Append(hist, [argv |-> argv', res |-> [oc |-> "parser_error", st |-> <<>>, pos |-> <<>>], why |-> "Inconsistent"])
+     ELSE phase' = "error" /\ reason' = "Inconsistent" /\ hist' = Append(hist, [argv |-> argv', res |-> [oc |-> "parser_error", st |-> <<>>, pos |-> <<>>], why |-> "Inconsistent", via |-> "argv"])
   /\ UNCHANGED <<cfg, env>>
 
 Scanning == phase = "scan" /\ cursor <= Len(argv)
@@ -65,7 +65,7 @@ OptionMode == Scanning /\ ~onlyPos /\ ~IsValueTok(Tok) /\ ~IsDD(Tok)
 
 Fail(why) ==
   /\ phase' = "error" /\ reason' = why
-  /\ hist' = Append(hist, [argv |-> argv, res |-> ErrorOutcome, why |-> why])
+  /\ hist' = Append(hist, [argv |-> argv, res |-> ErrorOutcome, why |-> why, via |-> "argv"])
   /\ UNCHANGED <<cfg, env, argv, cursor, st, onlyPos, byDD, positionals, acct, chk>>
 
 Consume(k, entries) ==
@@ -192,7 +192,7 @@ Result == [oc |-> "ok",
 Finish ==
   /\ phase = "check" /\ chk > N
   /\ phase' = "done"
-  /\ hist' = Append(hist, [argv |-> argv, res |-> Result, why |-> ""])
+  /\ hist' = Append(hist, [argv |-> argv, res |-> Result, why |-> "", via |-> "argv"])
   /\ UNCHANGED <<cfg, env, argv, cursor, st, onlyPos, byDD, positionals, acct, reason, chk>>
 
 ScanStep == ScanPositional \/ ScanTooManyPositionals \/ ScanGreedyMalformed \/ ScanDoubleDash \/ ScanBad
@@ -237,7 +237,8 @@ MachineIsMeaning ==
     \/ GreedyOpen(decl, greedy, argv)   \* ... except where the properties leave the outcome open
 (* ... and, C14, on *every* call of a history: what the k-th call returned is the meaning of its vector alone *)
 Repeatable ==
-  \A k \in 1..Len(hist) : \/ hist[k].res = Meaning(decl, allowed, greedy, env, hist[k].argv)
+  \A k \in 1..Len(hist) : \/ hist[k].res = (IF hist[k].via = "inputs" THEN MeaningViaInputs(decl, allowed, greedy, env, hist[k].argv)
+                                           ELSE Meaning(decl, allowed, greedy, env, hist[k].argv))
                            \/ GreedyOpen(decl, greedy, hist[k].argv)
                            \/ hist[k].res.oc = "parser_error"
 
